@@ -219,7 +219,7 @@ def driver_source(name, m, flags):
     L.append("      else { unsigned char b = (unsigned char)s; const uint8_t *cur = &b; const uint8_t *end = &b + 1; int c = %s; report(c, %s); } }" % (feed_call, "(long)(cur - &b)" if indirect else "-1"))
     L.append("    else if (!strcmp(cmd, \"stepn\")) { long q, n; if (scanf(\"%ld %ld\", &q, &n) != 2) exit(3); for (long i = 0; i < n; i++) { long c; if (scanf(\"%ld\", &c) != 1) exit(3); buf[i] = (unsigned char)c; }")
     L.append("      restore_ctx(); st.state = q; hooklen = 0; hooklog[0] = 0; const uint8_t *cur = buf; const uint8_t *end = buf + n; int c = %s; report(c, %s); }" % (feed_call, "(long)(cur - buf)" if indirect else "-1"))
-    L.append("    else if (!strcmp(cmd, \"run\")) { long nch; if (scanf(\"%ld\", &nch) != 1) exit(3); long lens[256]; long tot = 0; for (long i = 0; i < nch; i++) { if (scanf(\"%ld\", &lens[i]) != 1) exit(3); tot += lens[i]; }")
+    L.append("    else if (!strcmp(cmd, \"run\")) { long nch; if (scanf(\"%ld\", &nch) != 1) exit(3); static long lens[1 << 14]; long tot = 0; for (long i = 0; i < nch; i++) { if (scanf(\"%ld\", &lens[i]) != 1) exit(3); tot += lens[i]; }")
     L.append("      for (long i = 0; i < tot; i++) { long c; if (scanf(\"%ld\", &c) != 1) exit(3); buf[i] = (unsigned char)c; } long endflag; if (scanf(\"%ld\", &endflag) != 1) exit(3);")
     L.append("      /* every run starts from the init data: the driver keeps a pristine copy */")
     L.append("      memset(&st, 0, sizeof st); set_hooks(); hooklen = 0; hooklog[0] = 0; int c = %s_start(&st); report(c, 0); int keep = (endflag & 2) != 0; int stop = (c != %s_OK) && !keep;" % (P, U))
